@@ -927,9 +927,10 @@ pub fn script_scenario(prop: &str, shape: Shape, scripts: Vec<Vec<Op>>, oracle: 
       // finding of engine E1), once all of them have run every item of a source
       // that did not terminate and was not unsubscribed has been delivered, once
       if matches!(shape, Shape::ObserveOn | Shape::Delay) {
+        // (retain() and is_closed() are housekeeping: they disturb nothing)
         let quiet = !calls
           .iter()
-          .any(|c| !matches!(c.op, Op::NextA(_)));
+          .any(|c| !matches!(c.op, Op::NextA(_) | Op::Retain | Op::IsClosed));
         let mut want: Vec<Item> = calls.iter().filter_map(|c| if let Op::NextA(v) = c.op { Some(v) } else { None }).collect();
         let notes = p0.notes();
         let mut got: Vec<Item> = notes.iter().filter_map(|n| if let Note::N(v) = n { Some(*v) } else { None }).collect();
@@ -1162,6 +1163,9 @@ pub enum Waiter {
   WaitForEnd,
   ToFuture,
   ToStream,
+  /// to_future() polled once (pending) by the thread that made it, then handed
+  /// to another thread that waits for it
+  ToFutureMoved,
 }
 
 pub fn waiter_scenario(w: Waiter, items: usize, fail: bool, bound: u32, max_execs: u64) -> Scenario {
@@ -1187,6 +1191,19 @@ pub fn waiter_scenario(w: Waiter, items: usize, fail: bool, bound: u32, max_exec
         }
         Waiter::ToFuture => {
           let f = src.clone().to_future();
+          let g = got.clone();
+          shuttle::thread::spawn(move || {
+            let r = shuttle::future::block_on(f);
+            g.lock().unwrap().push(format!("{r:?}"));
+          })
+        }
+        Waiter::ToFutureMoved => {
+          let mut f = Box::pin(src.clone().to_future());
+          {
+            let w = futures::task::noop_waker();
+            let mut cx = std::task::Context::from_waker(&w);
+            let _ = std::future::Future::poll(f.as_mut(), &mut cx);
+          }
           let g = got.clone();
           shuttle::thread::spawn(move || {
             let r = shuttle::future::block_on(f);
@@ -1223,7 +1240,7 @@ pub fn waiter_scenario(w: Waiter, items: usize, fail: bool, bound: u32, max_exec
       // and the reported outcome is the documented one
       let exp: Vec<String> = match w {
         Waiter::WaitForEnd => vec!["closed=true".into()],
-        Waiter::ToFuture => vec![match (items, fail) {
+        Waiter::ToFuture | Waiter::ToFutureMoved => vec![match (items, fail) {
           (0, false) => "Err(Empty)".to_string(),
           (1, false) => "Ok(Ok(1))".to_string(),
           (_, false) => "Err(MultipleValues)".to_string(),
@@ -1318,6 +1335,117 @@ pub fn flat_scenario(prop: &str, limit: usize, n_inner: usize, bound: u32, max_e
         }
       }
       out.delivered = got.len() as u64;
+      out.note(&got);
+      out.trace.push(format!("p0 [{}]", fmt_notes(&got)));
+    }),
+  }
+}
+
+/// merge_all_threads(2) over two running hot inners that fail on two threads
+pub fn flat_fail_scenario(prop: &str, bound: u32, max_execs: u64) -> Scenario {
+  let prop = prop.to_string();
+  Scenario {
+    name: format!("merge_all_threads(2) over 2 hot inners: inner 0 fails || inner 1 fails c<={bound}"),
+    sig: "merge_all_threads(2)".into(),
+    bound,
+    max_execs,
+    body: Arc::new(move |ctx: &Arc<Ctx>, out: &mut Out| {
+      let outer = SubjectThreads::<usize, Er>::default();
+      let inners: Vec<Subj> = (0..2).map(|_| Subj::default()).collect();
+      let table = inners.clone();
+      let p0 = TProbe::new("p0", ctx);
+      let _u = outer
+        .clone()
+        .map(move |i: usize| table[i].clone())
+        .merge_all_threads(2)
+        .actual_subscribe(p0.clone());
+      outer.clone().next(0);
+      outer.clone().next(1);
+      let hs: Vec<_> = inners
+        .iter()
+        .enumerate()
+        .map(|(i, s)| {
+          let mut s = s.clone();
+          shuttle::thread::spawn(move || {
+            s.next(100 + i as Item);
+            s.error(7);
+          })
+        })
+        .collect();
+      for h in hs {
+        h.join().unwrap();
+      }
+      outer.clone().next(0);
+      let got = p0.notes();
+      let errs = got.iter().filter(|n| matches!(n, Note::Err(_))).count();
+      let items: Vec<Item> = got.iter().filter_map(|n| if let Note::N(v) = n { Some(*v) } else { None }).collect();
+      if errs != 1 || !matches!(got.last(), Some(Note::Err(_))) || items.iter().any(|v| *v != 100 && *v != 101) || items.len() > 2 {
+        ctx.fail(
+          format!("{prop}:flatten-failing-inners:merge_all_threads"),
+          format!("two running inners emitted one item each and failed: expected at most those two items and then exactly one error, got [{}]", fmt_notes(&got)),
+        );
+      }
+      out.delivered = got.len() as u64;
+      out.note(&got);
+      out.trace.push(format!("p0 [{}]", fmt_notes(&got)));
+    }),
+  }
+}
+
+/// concat (merge_all_threads(1)) over three hot inners, two of them queued: one
+/// thread completes inner 0 (which starts inner 1), one completes inner 1 (which,
+/// if it was started, starts inner 2), one unsubscribes the whole pipeline.
+pub fn flat_cut_scenario(prop: &str, bound: u32, max_execs: u64) -> Scenario {
+  let prop = prop.to_string();
+  Scenario {
+    name: format!("merge_all_threads(1) over 3 hot inners: inner 0 completes || inner 1 completes || unsubscribe c<={bound}"),
+    sig: "merge_all_threads(1)".into(),
+    bound,
+    max_execs,
+    body: Arc::new(move |ctx: &Arc<Ctx>, out: &mut Out| {
+      let outer = SubjectThreads::<usize, Er>::default();
+      let inners: Vec<Subj> = (0..3).map(|_| Subj::default()).collect();
+      let table = inners.clone();
+      let p0 = TProbe::new("p0", ctx);
+      let u = outer
+        .clone()
+        .map(move |i: usize| table[i].clone())
+        .merge_all_threads(1)
+        .actual_subscribe(p0.clone());
+      for i in 0..3 {
+        outer.clone().next(i);
+      }
+      let mut hs = vec![];
+      for i in 0..2 {
+        let mut s = inners[i].clone();
+        hs.push(shuttle::thread::spawn(move || {
+          s.next(100 + i as Item);
+          s.complete();
+        }));
+      }
+      let cut = Arc::new(AtomicUsize::new(0));
+      let (c2, ctx2) = (cut.clone(), ctx.clone());
+      let hu = shuttle::thread::spawn(move || {
+        u.unsubscribe();
+        c2.store(ctx2.stamp() as usize, Ordering::SeqCst);
+      });
+      for h in hs {
+        h.join().unwrap();
+      }
+      hu.join().unwrap();
+      for s in &inners {
+        let mut s = s.clone();
+        s.next(200);
+      }
+      let end = cut.load(Ordering::SeqCst) as u64;
+      if let Some(e) = p0.evs().iter().find(|e| e.enter > end) {
+        ctx.fail(
+          format!("{prop}:after-unsubscribe:merge_all_threads"),
+          format!("{:?} was delivered after unsubscribe() had returned: [{}]", e.note, fmt_notes(&p0.notes())),
+        );
+      }
+      let got = p0.notes();
+      out.delivered = got.len() as u64 + 1;
       out.note(&got);
       out.trace.push(format!("p0 [{}]", fmt_notes(&got)));
     }),
@@ -2032,7 +2160,7 @@ pub fn plan(prop: &str, tier: Tier) -> Option<Plan> {
         }
       }
       // waiters: a lost wake-up is a call that never returns
-      for w in [Waiter::WaitForEnd, Waiter::ToFuture, Waiter::ToStream] {
+      for w in [Waiter::WaitForEnd, Waiter::ToFuture, Waiter::ToStream, Waiter::ToFutureMoved] {
         for fail in [false, true] {
           sc.push(waiter_scenario(w, 1, fail, c2 + 1, CAP));
         }
@@ -2040,6 +2168,8 @@ pub fn plan(prop: &str, tier: Tier) -> Option<Plan> {
       for (limit, n) in [(1usize, 2usize), (1, 3), (2, 3)] {
         sc.push(flat_scenario("C10", limit, n, c3.max(1) + if n == 2 { 1 } else { 0 }, CAP));
       }
+      sc.push(flat_fail_scenario("C10", c2, CAP));
+      sc.push(flat_cut_scenario("C10", c3.max(1) + 1, CAP));
       // every pair of scripts of <= 2 calls on the two inputs of every two-input operator
       let alpha2 = [Op::NextA(1), Op::NextB(1), Op::CompleteA, Op::CompleteB, Op::ErrorA, Op::Unsubscribe];
       let t2 = seqs(&alpha2, 2);
@@ -2103,12 +2233,14 @@ pub fn plan(prop: &str, tier: Tier) -> Option<Plan> {
     }
     "C05" => {
       let c = if q { 2 } else { 3 };
-      for (limit, n) in [(1usize, 2usize), (1, 3), (2, 3), (3, 3)] {
-        sc.push(flat_scenario("C05", limit, n, if n == 2 { c + 1 } else { c }, CAP));
+      for (limit, n) in [(1usize, 1usize), (2, 1), (1, 2), (1, 3), (2, 3), (3, 3)] {
+        sc.push(flat_scenario("C05", limit, n, if n <= 2 { c + 1 } else { c }, CAP));
       }
+      sc.push(flat_fail_scenario("C05", c + 1, CAP));
+      sc.push(flat_cut_scenario("C05", c, CAP));
       Some(Plan {
         scenarios: sc,
-        rule: "merge_all_threads(limit) over hot inner subjects, inner 0 already running: one thread delivers the remaining inners and completes the outer while another drives and completes inner 0; afterwards the other inners are driven and completed; every schedule within the preemption bound; oracle: every inner item exactly once and then completion (a queued inner that is never started, or started twice, shows as a lost / duplicated item or a missing completion), no overlapping callbacks, nothing blocks".into(),
+        rule: "merge_all_threads(limit) over hot inner subjects, inner 0 already running: one thread delivers the remaining inners and completes the outer while another drives and completes inner 0; afterwards the other inners are driven and completed (with a single inner: the outer and the last inner complete together); two running inners failing on two threads (exactly one error, nothing after it); concat over three hot inners with one thread completing inner 0, one completing inner 1 and one unsubscribing (every call returns, nothing after unsubscribe() returned); every schedule within the preemption bound; oracle: every inner item exactly once and then completion (a queued inner that is never started, or started twice, shows as a lost / duplicated item or a missing completion), no overlapping callbacks, nothing blocks".into(),
         bounds: json!({"preemptions": c}),
         assumptions: vec!["sequentially consistent memory".into()],
       })
@@ -2270,6 +2402,13 @@ pub fn plan(prop: &str, tier: Tier) -> Option<Plan> {
         }
         sc.push(script_scenario("C06", Shape::Subject, vec![x.clone(), vec![Op::NextA(1), Op::Subscribe]], Oracle::SubjectRules, c, CAP));
       }
+      // two threads pruning the list [closed, live] at once; the live one still gets the next item
+      for x in [
+        vec![Op::Subscribe, Op::Unsubscribe, Op::Retain, Op::NextA(1)],
+        vec![Op::Subscribe, Op::NextA(1), Op::Unsubscribe, Op::Retain, Op::NextA(2)],
+      ] {
+        sc.push(script_scenario("C06", Shape::Subject, vec![x, vec![Op::Retain]], Oracle::SubjectRules, c, CAP));
+      }
       sc.push(script_scenario(
         "C06",
         Shape::Subject,
@@ -2280,7 +2419,7 @@ pub fn plan(prop: &str, tier: Tier) -> Option<Plan> {
       ));
       Some(Plan {
         scenarios: sc,
-        rule: "SubjectThreads shared by two threads (every pair of scripts of <=2 calls) and three threads (every triple of single calls) from {next(v), complete, error, subscribe a fresh probe, unsubscribe the early probe}, plus retain() against each of them; every schedule within the preemption bound; oracle from call/return stamps on the controlled schedule: each item at most once per subscriber, one common order, a subscriber whose subscribe() returned before next() started gets the item, one whose subscribe() started after next() returned does not, terminal exactly once for subscribers present, nothing after unsubscribe() returned".into(),
+        rule: "SubjectThreads shared by two threads (every pair of scripts of <=2 calls) and three threads (every triple of single calls) from {next(v), complete, error, subscribe a fresh probe, unsubscribe the early probe}, plus retain() against each of them and against a second retain() while the list holds a closed and a live subscriber; every schedule within the preemption bound; oracle from call/return stamps on the controlled schedule: each item at most once per subscriber, one common order, a subscriber whose subscribe() returned before next() started gets the item, one whose subscribe() started after next() returned does not, terminal exactly once for subscribers present, nothing after unsubscribe() returned".into(),
         bounds: json!({"preemptions": c}),
         assumptions: vec!["sequentially consistent memory".into()],
       })
@@ -2298,7 +2437,7 @@ pub fn plan(prop: &str, tier: Tier) -> Option<Plan> {
     }
     "C14" => {
       let c = if q { 3 } else { 6 };
-      for w in [Waiter::WaitForEnd, Waiter::ToFuture, Waiter::ToStream] {
+      for w in [Waiter::WaitForEnd, Waiter::ToFuture, Waiter::ToStream, Waiter::ToFutureMoved] {
         for items in 0..=2 {
           for fail in [false, true] {
             sc.push(waiter_scenario(w, items, fail, c, CAP));
@@ -2307,7 +2446,7 @@ pub fn plan(prop: &str, tier: Tier) -> Option<Plan> {
       }
       Some(Plan {
         scenarios: sc,
-        rule: "a producer thread (0..2 items, then complete or error) against a waiting thread (CompleteStatus::wait_for_end, block_on(to_future()), draining to_stream()); every schedule within the preemption bound including the point between the closed-flag check and the waker registration; oracle: the waiter returns (a lost wake-up is a deadlock reported by the runtime) with the documented outcome".into(),
+        rule: "a producer thread (0..2 items, then complete or error) against a waiting thread (CompleteStatus::wait_for_end, block_on(to_future()), draining to_stream(), and a to_future() that was polled once by another task before the waiting thread took it over); every schedule within the preemption bound including the point between the closed-flag check and the waker registration; oracle: the waiter returns (a lost wake-up is a deadlock reported by the runtime) with the documented outcome".into(),
         bounds: json!({"preemptions": c}),
         assumptions: vec!["futures' mpsc channel / AtomicWaker operations are indivisible steps".into()],
       })
@@ -2347,6 +2486,9 @@ pub fn plan(prop: &str, tier: Tier) -> Option<Plan> {
           vec![vec![Op::NextA(1), Op::NextA(2), Op::NextA(3)]],
           vec![vec![Op::NextA(1)], vec![Op::NextA(2)]],
           vec![vec![Op::NextA(1), Op::CompleteA]],
+          // the source asks its subscriber is_finished() (retain) while pool tasks deliver
+          vec![vec![Op::NextA(1), Op::Retain, Op::NextA(2)]],
+          vec![vec![Op::NextA(1), Op::NextA(2)], vec![Op::Retain]],
         ] {
           let n: usize = s.iter().map(|x| x.len()).sum();
           sc.push(script_scenario("C07", shape, s, Oracle::Serialise, if n >= 3 { c } else { c + 1 }, CAP));
@@ -2354,7 +2496,7 @@ pub fn plan(prop: &str, tier: Tier) -> Option<Plan> {
       }
       Some(Plan {
         scenarios: sc,
-        rule: "observe_on_threads and delay_threads over a SubjectThreads with every scheduled notification its own controlled pool task (a k-worker pool that may run, and overlap, them in any order): one or two emitting threads; every schedule within the preemption bound; oracle once every task has run: nothing invented or duplicated, and every item of a source that neither terminated nor was unsubscribed has been delivered (the order in which independent tasks deliver is engine E1's known finding and is not asserted here); no overlapping callbacks, grammar, nothing blocks".into(),
+        rule: "observe_on_threads and delay_threads over a SubjectThreads with every scheduled notification its own controlled pool task (a k-worker pool that may run, and overlap, them in any order): one or two emitting threads, optionally a retain() on the source (which asks every subscriber is_finished()); every schedule within the preemption bound; oracle once every task has run: nothing invented or duplicated, and every item of a source that neither terminated nor was unsubscribed has been delivered (the order in which independent tasks deliver is engine E1's known finding and is not asserted here); no overlapping callbacks, grammar, nothing blocks".into(),
         bounds: json!({"preemptions": c}),
         assumptions: vec!["sequentially consistent memory".into()],
       })
@@ -2390,6 +2532,8 @@ pub fn plan(prop: &str, tier: Tier) -> Option<Plan> {
           sc.push(ticker_scenario(kind, s, c, CAP));
         }
         sc.push(ticker_scenario(kind, vec![vec![Op::NextA(1), Op::NextA(2)], vec![Op::NextA(3)]], c - 1, CAP));
+        // the tick interrupted between two of its steps by the arrival that fills the buffer
+        sc.push(ticker_scenario(kind, vec![vec![Op::NextA(1), Op::NextA(2)]], c + 1, CAP));
       }
       Some(Plan {
         scenarios: sc,
